@@ -195,10 +195,15 @@ def schema_cache_policy(cat_tree):
         raise Untranslatable("add_table: does not end in self._schema.add_table(table, column_mapping, ...)")
     guards = [s for s in b if isinstance(s, ast.If) and "self._schema.find(table)" in ast.unparse(s.test)]
     if not guards:
-        # no early return: sqlglot's MappingSchema.add_table overwrites the entry (nested_set)
-        for s in b:
-            if isinstance(s, (ast.Return,)):
-                raise Untranslatable("add_table: unexpected return")
+        # no early return when a column mapping is supplied: sqlglot's MappingSchema.add_table overwrites the entry
+        # (nested_set).  Returns are accepted only inside the `if column_mapping is None:` branch (nothing to refresh from).
+        inside = set()
+        for st in b:
+            if isinstance(st, ast.If) and ast.unparse(st.test) == "column_mapping is None":
+                inside |= {id(n) for n in ast.walk(st) if isinstance(n, ast.Return)}
+        for n in ast.walk(f):
+            if isinstance(n, ast.Return) and id(n) not in inside:
+                raise Untranslatable("add_table: a return outside the `column_mapping is None` branch")
         return False
     if len(guards) == 1 and ast.unparse(guards[0].test) == "self._schema.find(table)" \
             and [ast.unparse(s) for s in guards[0].body] == ["return"] and not guards[0].orelse:
@@ -345,9 +350,13 @@ def bool_expr(n, vals):
 def session_shape(ses_tree, duck_tree):
     cls = py2v.find_class(ses_tree, "_BaseSession")
     new = py2v.find_method(ses_tree, "_BaseSession", "__new__")
-    if [ast.unparse(s) for s in _body(new)] != [
-            "if _BaseSession._instance is None:\n    _BaseSession._instance = super().__new__(cls)",
-            "return _BaseSession._instance"]:
+    nb = _body(new)
+    tests = ("_BaseSession._instance is None",
+             # one instance per engine class: a session of another engine class is replaced, the same class is reused
+             "_BaseSession._instance is None or not isinstance(_BaseSession._instance, cls)")
+    if not (len(nb) == 2 and isinstance(nb[0], ast.If) and not nb[0].orelse and ast.unparse(nb[0].test) in tests
+            and [ast.unparse(x) for x in nb[0].body] == ["_BaseSession._instance = super().__new__(cls)"]
+            and ast.unparse(nb[1]) == "return _BaseSession._instance"):
         raise Untranslatable("_BaseSession.__new__ is no longer the singleton constructor")
     init = py2v.find_method(ses_tree, "_BaseSession", "__init__")
     guard = [s for s in _body(init) if isinstance(s, ast.If) and ast.unparse(s.test) == "not hasattr(self, 'input_dialect')"]
